@@ -484,14 +484,21 @@ def apply_findloops(ed, it, closures, src, ann, qual):
             ptxt = ptxt[1:].strip()
         b0, b1 = c["body"]
         byval = itc["name"] == "into_iter"
-        head = ("{ let verif_fv = " + ("" if byval else "&") + xsrc + "; let mut verif_found: Option<" + ("" if byval else "&") + elem_ty + "> = None; let mut verif_fi: usize = 0;\n"
+        # `X.iter().find(..).cloned()`: the clone is taken inside the block (the element itself is yielded), so that X may be a temporary
+        cl = [m for m in it["mcalls"] if m["name"] == "cloned" and not m["args"] and m["recv_end"] == mp["span"][1]]
+        end_at = mp["span"][1]
+        if cl and not byval and not re.match(r"^[\w\.]+$", xsrc.strip()):
+            byval_yield, end_at = True, cl[0]["span"][1]
+        else:
+            byval_yield = byval
+        head = ("{ let verif_fv = " + ("" if byval else "&") + xsrc + "; let mut verif_found: Option<" + ("" if byval_yield else "&") + elem_ty + "> = None; let mut verif_fi: usize = 0;\n"
                 "while verif_fi < verif_fv.len()\n" + inv.rstrip() + "\n    decreases verif_fv.len() - verif_fi\n"
                 "{ let " + ptxt + " = &verif_fv[verif_fi]; if ")
         ed.add(itc["span"][0], b0, head, "D17", f"`{xsrc.strip()[:30]}.iter().find(..)` desugared to an index loop stopping at the first match (closure body copied by span)")
         hit = (ann.get("findhits") or {}).get(str(k), "").strip()
         ext = (ann.get("findexits") or {}).get(str(k), "").strip()
-        found = "verif_elem(&verif_fv, verif_fi)" if byval else ptxt
-        ed.add(b1, mp["span"][1], " { verif_found = Some(" + found + "); " + hit + " break; } verif_fi = verif_fi + 1; } " + ext + " verif_found }", None)
+        found = "verif_elem(&verif_fv, verif_fi)" if byval else ("verif_elem(verif_fv, verif_fi)" if byval_yield else ptxt)
+        ed.add(b1, end_at, " { verif_found = Some(" + found + "); " + hit + " break; } verif_fi = verif_fi + 1; } " + ext + " verif_found }", None)
 
 
 
@@ -749,6 +756,12 @@ def _range_chain(it, src, end):
         if not re.match(r"^[A-Z_][A-Z0-9_]*$", mexpr):
             raise Inconclusive(f"D22: prefix receiver `{mexpr[:30]}` is not a storage map constant")
         pre = f"let verif_skip: usize = {skip}; let verif_limit: usize = {arg(tk, 0)}; "
+        if not arg(pm, 0).startswith("("):
+            # 1-component prefix of a 2-component key: only the unbounded, unskipped form is modelled (prelude/prefix1.rs)
+            if arg(rg, 1) != "None" or sk is not None:
+                raise Inconclusive("D22: 1-component prefix range with a bound or skip is not modelled")
+            return {"start": pm["span"][0], "call": f"verif_prefix1_range(&{mexpr}, {arg(rg, 0)}, {arg(pm, 0)}, verif_limit)", "keys": None, "pre": pre,
+                    "shape": f"{mexpr}.prefix({arg(pm, 0)}).range(.., None, None, Ascending).take({arg(tk, 0)})"}
         call = f"verif_prefix_range_from(&{mexpr}, {arg(rg, 0)}, {arg(pm, 0)}, {arg(rg, 1)}, verif_skip, verif_limit)"
         return {"start": pm["span"][0], "call": call, "keys": None, "pre": pre,
                 "shape": f"{mexpr}.prefix(..).range(.., {arg(rg, 1)}, None, Ascending)" + (f".skip({skip})" if sk is not None else "") + f".take({arg(tk, 0)})"}
